@@ -10,9 +10,9 @@ C12_OPS = {"add", "add_assign", "xor", "xor_assign", "and", "or", "andnot", "not
 
 
 def configs(c):
-    cf = [("std-rel", f) for f in range(0, 6)] + [("nosimd-rel", 0), ("nostd-sse2", 0), ("nostd-avx2", 0), ("std-dbg", 1)]
+    cf = [("std-rel", f) for f in range(0, 6)] + [("nosimd-rel", 0), ("nostd-sse2", 0), ("nostd-ssse3", 0), ("nostd-sse41", 0), ("nostd-avx", 0), ("nostd-avx2", 0), ("std-dbg", 1)]
     if c.thorough:
-        cf += [("std-dbg", 0), ("std-dbg", 5), ("nosimd-dbg", 0), ("nostd-ssse3", 0), ("nostd-sse41", 0), ("nostd-avx", 0)]
+        cf += [("std-dbg", 0), ("std-dbg", 5), ("nosimd-dbg", 0)]
     return cf
 
 
